@@ -1,6 +1,7 @@
 package migration
 
 import (
+	"strings"
 	"testing"
 
 	"golang.org/x/crypto/blake2b"
@@ -136,6 +137,29 @@ func TestVerifDriver(t *testing.T) {
 			}
 		}
 		emit("migration.Decode", M{"trytes": vInts(lower)})
+		// every adjacent tryte pair rewritten to the value 256 above or below (the same byte modulo 256: a b1t6 group
+		// outside the code words); for aligned pairs the result differs from a valid address in one group only
+		tv := func(c byte) int {
+			k := strings.IndexByte(tryteAlphabet, c)
+			if k > 13 {
+				k -= 27
+			}
+			return k
+		}
+		tc := func(v int) byte { return tryteAlphabet[(v+27)%27] }
+		for i := 0; i+1 < len(s); i++ {
+			v := tv(s[i]) + 27*tv(s[i+1])
+			for _, w := range []int{v + 256, v - 256} {
+				if w < -364 || w > 364 {
+					continue
+				}
+				lo := ((w%27)+27+13)%27 - 13
+				hi := (w - lo) / 27
+				m := append([]byte{}, s...)
+				m[i], m[i+1] = tc(lo), tc(hi)
+				emit("migration.Decode", M{"trytes": vInts(m)})
+			}
+		}
 		// two substitutions in the checksum part
 		for q := 0; q < 40; q++ {
 			m := append([]byte{}, s...)
